@@ -200,6 +200,13 @@ def run(pid, tier, seed, replay, t0):
     notes = []
 
     if replay:
+        # the model is instantiated with the facts of the CURRENT source: regenerate them (and what the driver imports) first
+        ex = extract()
+        if not ex['ok']:
+            print('extract failed:', ex.get('error'), file=sys.stderr)
+            return 2
+        lake_build(['PaneModel.Model.Build', 'PaneModel.Model.Render', 'PaneModel.Model.Rename', 'PaneModel.Model.Cache',
+                    'PaneModel.Model.Order', 'PaneModel.Model.Pane', 'PaneModel.Model.IO', 'PaneModel.Lemmas.RoundTripDefs'])
         r = run_py([os.path.join(VERIF, 'tools', 'corr_run.py'), '--pid', pid, '--replay', os.path.join(VERIF, replay)])
         print(json.dumps(r, indent=1)[:4000])
         if not r.get('ok', False):
@@ -218,7 +225,8 @@ def run(pid, tier, seed, replay, t0):
     # 2. build: the property's theorems + what the driver needs
     targets = prop_targets(pid)
     b = lake_build(targets + ['PaneModel.Model.Build', 'PaneModel.Model.Render', 'PaneModel.Model.Rename',
-                              'PaneModel.Model.Cache', 'PaneModel.Model.Order', 'PaneModel.Model.Pane'])
+                              'PaneModel.Model.Cache', 'PaneModel.Model.Order', 'PaneModel.Model.Pane',
+                              'PaneModel.Model.IO', 'PaneModel.Lemmas.RoundTripDefs'])
     theorems = prop_theorems(pid)
     broken_theorems = []
     driver_ok = True
